@@ -383,6 +383,63 @@ Fixpoint chblocks (fuel : nat) (s : bytes) : res bytes :=
 Definition rewrite (p : bytes) : res bytes :=
   bind (esc_pass 0 false p) (fun q => chblocks (S (length q)) q).
 
+(* ---- Spec: what the rewrite is meant to do (used only by the _refuted theorems) -----------------
+   esc_pass_spec: a backslash is inserted only in front of an UNESCAPED '^' / '$' outside brackets.
+   chblocks_step_spec: the block named between \p{Is and } (exact name) selects the range; the
+   bracket depth only decides whether the range is written with or without its own brackets. *)
+Fixpoint esc_pass_spec (brack : N) (escaped : bool) (p : bytes) : res bytes :=
+  match p with
+  | [] => Ok []
+  | c :: p' =>
+      if c =? 92 then
+        bind (esc_pass_spec brack (negb escaped) p') (fun o => Ok (92 :: o))
+      else if is_anchor c then
+        bind (esc_pass_spec brack false p')
+             (fun o => Ok (if (brack =? 0) && negb escaped then 92 :: c :: o else c :: o))
+      else if c =? 91 then
+        bind (esc_pass_spec (if escaped then brack else brack + 1) false p') (fun o => Ok (c :: o))
+      else if c =? 93 then
+        if (brack =? 0) && negb escaped then Err 1
+        else bind (esc_pass_spec (if escaped then brack else brack - 1) false p') (fun o => Ok (c :: o))
+      else bind (esc_pass_spec brack false p') (fun o => Ok (c :: o))
+  end.
+
+Fixpoint before_char (ch : N) (s : bytes) : bytes :=
+  match s with
+  | [] => []
+  | c :: s' => if c =? ch then [] else c :: before_char ch s'
+  end.
+
+Definition chblocks_step_spec (s : bytes) : option (res bytes) :=
+  match find_sub needle s with
+  | None => None
+  | Some (before, at_) =>
+      match after_char 125 at_ with
+      | None => Some (Err 2)
+      | Some rest =>
+          match find (fun e => beq_bytes (fst e) (before_char 125 (skipn 5 at_))) ublock2urange with
+          | None => Some (Err 3)
+          | Some e =>
+              let rng := snd e in
+              if (brk_count 0 before 0%Z <=? 0)%Z then Some (Ok (before ++ rng ++ rest))
+              else Some (Ok (before ++ removelast (skipn 1 rng) ++ rest))
+          end
+      end
+  end.
+
+Fixpoint chblocks_spec (fuel : nat) (s : bytes) : res bytes :=
+  match fuel with
+  | O => Err 9
+  | S f => match chblocks_step_spec s with
+           | None => Ok s
+           | Some (Err e) => Err e
+           | Some (Ok s') => chblocks_spec f s'
+           end
+  end.
+
+Definition rewrite_spec (p : bytes) : res bytes :=
+  bind (esc_pass_spec 0 false p) (fun q => chblocks_spec (S (length q)) q).
+
 (* ---- lyplg_type_validate_patterns() (src/plugins_types.c) over an abstract matcher ------------
    code_match c s models ly_pattern_code_match(): Ok true = LY_SUCCESS (match), Ok false = LY_ENOT,
    Err e = any other return value. Result of validate_patterns: Ok true = LY_SUCCESS, Ok false =
